@@ -878,7 +878,7 @@ def md_expected(r):
     o, s, t = G['o'], G['s'], G['t']
     old_s = D0['D.study'][skey(o, s)]
     exp_study = z3.If(skey(o, s) == n, some(ST(), ms(val(ST(), old_s), smd.n, smd.arr)), old_s)
-    cnt, arr = z3.IntVal(0), z3.K(I, pm._default_term(pm.msg_sort(UMU)))
+    cnt, arr = z3.IntVal(0), M.to_symlist(None, [], UMU).arr      # the engine's empty list of updates
     for u in tmd:
         hit = M.str2int(E.to_z3(u.get('trial_id'))) == t
         arr = z3.If(hit, z3.Store(arr, cnt, u.pack()), arr)
